@@ -146,6 +146,7 @@ const (
 	Plain   Style = iota // minimal escaping, raw UTF-8
 	GoLike               // what encoding/json would emit (<,>,& and U+2028/9 escaped)
 	Unicode              // every non-ASCII as \uXXXX (surrogate pairs), '/' escaped
+	Spaced               // Plain escaping with insignificant white space: "k" : v , "k2" : [ 1 , 2 ] (what other serialisers, log shippers and pretty-printers-on-one-line write)
 )
 
 func (n *Node) Bytes(st Style) []byte {
@@ -174,18 +175,33 @@ func (n *Node) write(sb *strings.Builder, st Style) {
 		sb.WriteByte('{')
 		for i, k := range n.Keys {
 			if i > 0 {
-				sb.WriteByte(',')
+				if st == Spaced {
+					sb.WriteString(" , ")
+				} else {
+					sb.WriteByte(',')
+				}
 			}
 			Quote(sb, k, st)
-			sb.WriteByte(':')
+			if st == Spaced {
+				sb.WriteString(" : ")
+			} else {
+				sb.WriteByte(':')
+			}
 			n.Vals[i].write(sb, st)
+		}
+		if st == Spaced && len(n.Keys) > 0 {
+			sb.WriteByte(' ')
 		}
 		sb.WriteByte('}')
 	case Arr:
 		sb.WriteByte('[')
 		for i, v := range n.Vals {
 			if i > 0 {
-				sb.WriteByte(',')
+				if st == Spaced {
+					sb.WriteString(", ")
+				} else {
+					sb.WriteByte(',')
+				}
 			}
 			v.write(sb, st)
 		}
